@@ -1,0 +1,85 @@
+// +build verif
+
+package band
+
+// This file is only compiled with the "verif" build tag. It exposes a
+// read-only deep copy of a band's internal tables for verification tooling.
+
+// VerifDataRate is a DataRate including its (unexported) direction flags.
+type VerifDataRate struct {
+	DataRate
+	Uplink   bool
+	Downlink bool
+}
+
+// VerifChannel is a Channel including its (unexported) state flags.
+type VerifChannel struct {
+	Channel
+	Enabled bool
+	Custom  bool
+}
+
+// VerifBandSnapshot is a deep copy of the internal band tables.
+type VerifBandSnapshot struct {
+	SupportsExtraChannels bool
+	CFListMinDR           int
+	CFListMaxDR           int
+	DataRates             map[int]VerifDataRate
+	MaxPayloadSizePerDR   map[string]map[string]map[int]MaxPayloadSize
+	RX1DataRateTable      map[int][]int
+	UplinkChannels        []VerifChannel
+	DownlinkChannels      []VerifChannel
+	TXPowerOffsets        []int
+}
+
+type verifBander interface {
+	verifBand() *band
+}
+
+func (b *band) verifBand() *band {
+	return b
+}
+
+// VerifSnapshot returns a deep copy of the internal tables of the given band.
+// The second return value is false when the Band is not one of this package.
+func VerifSnapshot(bb Band) (VerifBandSnapshot, bool) {
+	vb, ok := bb.(verifBander)
+	if !ok {
+		return VerifBandSnapshot{}, false
+	}
+	b := vb.verifBand()
+
+	out := VerifBandSnapshot{
+		SupportsExtraChannels: b.supportsExtraChannels,
+		CFListMinDR:           b.cFListMinDR,
+		CFListMaxDR:           b.cFListMaxDR,
+		DataRates:             make(map[int]VerifDataRate),
+		MaxPayloadSizePerDR:   make(map[string]map[string]map[int]MaxPayloadSize),
+		RX1DataRateTable:      make(map[int][]int),
+	}
+
+	for k, v := range b.dataRates {
+		out.DataRates[k] = VerifDataRate{DataRate: v, Uplink: v.uplink, Downlink: v.downlink}
+	}
+	for k1, v1 := range b.maxPayloadSizePerDR {
+		out.MaxPayloadSizePerDR[k1] = make(map[string]map[int]MaxPayloadSize)
+		for k2, v2 := range v1 {
+			out.MaxPayloadSizePerDR[k1][k2] = make(map[int]MaxPayloadSize)
+			for k3, v3 := range v2 {
+				out.MaxPayloadSizePerDR[k1][k2][k3] = v3
+			}
+		}
+	}
+	for k, v := range b.rx1DataRateTable {
+		out.RX1DataRateTable[k] = append([]int(nil), v...)
+	}
+	for _, c := range b.uplinkChannels {
+		out.UplinkChannels = append(out.UplinkChannels, VerifChannel{Channel: c, Enabled: c.enabled, Custom: c.custom})
+	}
+	for _, c := range b.downlinkChannels {
+		out.DownlinkChannels = append(out.DownlinkChannels, VerifChannel{Channel: c, Enabled: c.enabled, Custom: c.custom})
+	}
+	out.TXPowerOffsets = append([]int(nil), b.txPowerOffsets...)
+
+	return out, true
+}
